@@ -60,15 +60,19 @@ Definition get_ok (t : htree) (g : jget) : bool :=
 
 Record c08case := mkC08 {
   e_i : N; e_depth : nat; e_height : nat; e_opsa : list top; e_opsb : list top; e_prefixes : list string;
-  e_outa : list jl; e_outb : list jl; e_outl : list jl; e_gets : list jget; e_roota : N * N; e_rootb : N * N }.
+  e_outa : list jl; e_outb : list jl; e_outl : list jl; e_gets : list jget; e_roota : N * N; e_rootb : N * N;
+  e_mid : nat; e_midp : string; e_outmid : jl }.
 
 Definition root_ok (t : htree) (r : N * N) : bool :=
   let nd := snd (tree_update t) in (n_hash nd =? fst r) && (n_count nd =? snd r).
 
 Definition c08_check (c : c08case) : N :=
-  let ta := fold_left apply_top (e_opsa c) (new_tree (e_depth c) (e_height c)) in
+  (* history A is interrupted by a listing after its first e_mid operations (marks nodes as updated) *)
+  let '(tmid, lmid) := list_dir (fold_left apply_top (firstn (e_mid c) (e_opsa c)) (new_tree (e_depth c) (e_height c))) (digits_of (e_midp c)) in
+  let ta := fold_left apply_top (skipn (e_mid c) (e_opsa c)) tmid in
   let tb := fold_left apply_top (e_opsb c) (new_tree (e_depth c) (e_height c)) in
-  if negb (listings_ok ta (e_prefixes c) (e_outa c)) then 1
+  if negb (listing_eqb lmid (e_outmid c)) then 6
+  else if negb (listings_ok ta (e_prefixes c) (e_outa c)) then 1
   else if negb (listings_ok tb (e_prefixes c) (e_outb c)) then 2
   else if negb (root_ok ta (e_roota c) && root_ok tb (e_rootb c)) then 3
   else if negb (forallb (get_ok tb) (e_gets c)) then 4
